@@ -381,6 +381,16 @@ fn check_f64_crop(t: &mut Tape) -> Outcome {
         1 => fr::ResizeAlg::Convolution(fr::FilterType::Bilinear),
         _ => fr::ResizeAlg::SuperSampling(fr::FilterType::Box, 2),
     };
+    // a box of exactly the destination's size takes the copy fast path
+    let (mut dw, mut dh) = (dw, dh);
+    if t.chance(70) {
+        if b.2 == b.2.round() && b.2 >= 1.0 && b.2 <= 16.0 {
+            dw = b.2 as u32;
+        }
+        if b.3 == b.3.round() && b.3 >= 1.0 && b.3 <= 16.0 {
+            dh = b.3 as u32;
+        }
+    }
     f64_case(pt, sw, sh, dw, dh, b, alg)
 }
 
